@@ -295,7 +295,7 @@ impl Property for C08 {
         let family = rng.below(10);
         let mut call;
         match family {
-            0..=3 => {
+            0..=2 => {
                 let rich = rng.coin();
                 let prog = gen::pp_program(&mut rng, 4, rich);
                 sc.vfs = prog.nodes;
@@ -304,7 +304,7 @@ impl Property for C08 {
                 call.defines = prog.defines;
                 sc.family = "program".into();
             }
-            4 | 5 => {
+            3 | 4 => {
                 // a preprocessor testcase of the repository, over its directory
                 let c = gen::corpus();
                 let names: Vec<&String> = c.files.keys().filter(|k| k.starts_with("pp/") && !k.starts_with("pp/expected/")).collect();
@@ -325,15 +325,15 @@ impl Property for C08 {
                 sc.expect = json!({ "fault_files": keep });
                 sc.family = "repo-testcase".into();
             }
-            6 => {
+            5 => {
                 let text = if rng.coin() { gen::corpus_sv(&mut rng, 1200).to_string() } else { gen::corpus_lib(&mut rng).to_string() };
                 sc.vfs.push(VNode::file("/w/top.sv", &text));
                 call = Call::new(*rng.pick(&[Api::ParseSv, Api::ParseLib]), "top.sv");
                 sc.family = "corpus".into();
             }
-            7 | 8 => {
-                let base = match rng.below(7) {
-                    4 | 5 | 6 => gen::macro_program(&mut rng),
+            6 | 7 | 8 => {
+                let base = match rng.below(9) {
+                    4..=8 => gen::macro_program(&mut rng),
                     0 => gen::corpus_sv(&mut rng, 800).to_string(),
                     1 => gen::polluter(&mut rng),
                     2 => {
